@@ -85,9 +85,13 @@ BRIDGE_CFG = {
                                   Deltas="DeltasSmall", Modes="ModesFixed", MaxLen=4)),
         ("modes/len3", dict(Sources="SrcOne", PtAlpha="{0, 96, 101}", Tables="TablesAll", StartTs="StartEdge",
                             Deltas="DeltasSmall", Modes="ModesAll", MaxLen=3)),
+        ("video+reinstall/len4", dict(Sources="SrcTwo", PtAlpha="{0, 96}", Tables="TablesAv", StartTs="StartOne",
+                                      Deltas="DeltasTwo", Modes="ModesFixed", MaxLen=4, Video="VideoSome",
+                                      Reinstalls="TRUE")),
         # deep random behaviours: TLC prints every continuation of the last step of each simulated behaviour
         ("deep/sim", dict(Sources="SrcTwo", PtAlpha="{0, 96, 101}", Tables="TablesAll", StartTs="StartEdge",
-                          Deltas="DeltasFull", Modes="ModesAll", MaxLen=10, sim=(120, 10))),
+                          Deltas="DeltasFull", Modes="ModesAll", MaxLen=10, sim=(120, 10), Video="VideoSome",
+                          Reinstalls="TRUE")),
     ],
     "thorough": [
         ("one-source/len5", dict(Sources="SrcOne", PtAlpha="{0, 101}", Tables="TablesQuick", StartTs="StartWrap",
@@ -99,7 +103,11 @@ BRIDGE_CFG = {
         ("modes/len4", dict(Sources="SrcOne", PtAlpha="{0, 96, 101}", Tables="TablesAll", StartTs="StartEdge",
                             Deltas="DeltasSmall", Modes="ModesAll", MaxLen=4)),
         ("deep/sim", dict(Sources="SrcTwo", PtAlpha="{0, 96, 101}", Tables="TablesAll", StartTs="StartEdge",
-                          Deltas="DeltasFull", Modes="ModesAll", MaxLen=16, sim=(2500, 16))),
+                          Deltas="DeltasFull", Modes="ModesAll", MaxLen=16, sim=(2500, 16), Video="VideoSome",
+                          Reinstalls="TRUE")),
+        ("video+reinstall/len5", dict(Sources="SrcTwo", PtAlpha="{0, 96, 101}", Tables="TablesAll", StartTs="StartOne",
+                                      Deltas="DeltasTwo", Modes="ModesFixed", MaxLen=5, Video="VideoSome",
+                                      Reinstalls="TRUE")),
         ("modes/two-sources/len3", dict(Sources="SrcTwo", PtAlpha="{0, 96, 101}", Tables="TablesAll", StartTs="StartEdge",
                                         Deltas="DeltasSmall", Modes="ModesAll", MaxLen=3)),
     ],
@@ -121,6 +129,8 @@ CONSTANTS
   Seq0 = 65534
   Off0 <- OffNeg
   Pin = 2147483600
+  VideoPts <- {c.get('Video', 'NoVideo')}
+  Reinstalls = {c.get('Reinstalls', 'FALSE')}
   MaxLen = {c['MaxLen']}
 INVARIANTS TypeOK StableMap
 PROPERTIES {BRIDGE_PROPS}
